@@ -187,6 +187,9 @@ func e1BaseGrid(tier string) []e1Grid {
 		{mcfg("ll", false, 7, "aacsbr"), "audio"},
 		{mcfg("fmp4", false, 3, "h265b"), "reorder"},
 		{mcfg("ll", false, 7, "h265b", "aac44"), "reorder"},
+		// reordered H264 whose parameter switch changes the PPS only (the SPS is repeated unchanged)
+		{func() muxCfg { c := mcfg("fmp4", false, 3, "h264b"); c.ParamDelta = "pps"; return c }(), "reorder"},
+		{func() muxCfg { c := mcfg("mpegts", false, 3, "h264b", "aac44"); c.ParamDelta = "pps"; return c }(), "reorder"},
 		// Opus as the leading track (audio only): writes of three packets that last 20, 10 and 40 ms
 		{mcfg("fmp4", false, 3, "opus"), "audio"},
 		{mcfg("ll", false, 7, "opus", "aac44"), "audio"},
@@ -336,6 +339,28 @@ func e1Scens(prop, tier string) []e1Scen {
 					out = append(out, e1Scen{Prop: prop, Cfg: cfg, Alpha: word, Mode: "paramfault", Len: 4 * (fa + 6), FaultAt: fa, Name: fmt.Sprintf("listed-after-bad-parameter-sets-%d", fa)})
 				}
 			}
+		}
+	}
+	if prop == "C04" || prop == "C03" {
+		// NTSC video (3003 ticks per frame, 30-frame groups of pictures) next to 44.1 kHz audio: segment boundaries that are
+		// not on a tick of the audio clock; every stream lists the same durations for the same sequence number
+		for _, variant := range []string{"fmp4", "ll"} {
+			cfg := mcfg(variant, false, 3, "h264", "aac44")
+			if variant == "ll" {
+				cfg.SegCount = 7
+			}
+			var gop []sym
+			for t, n := range []int{4, 4, 5, 4, 4, 5, 4, 4, 5, 4} {
+				for k := 0; k < 3; k++ {
+					kind := "n"
+					if t == 0 && k == 0 {
+						kind = "R"
+					}
+					gop = append(gop, sym{T: 0, D: "i", K: kind})
+				}
+				gop = append(gop, sym{T: 1, D: "c", N: n})
+			}
+			out = append(out, e1Scen{Prop: prop, Cfg: cfg, Alpha: gop, Mode: "long", Len: 16 * len(gop), Name: "ntsc-video-44k-audio"})
 		}
 	}
 	if prop == "C04" {
